@@ -120,7 +120,10 @@ struct SctpSide {
 fn sctp_side(dtls: Arc<rustrtc::transports::dtls::DtlsTransport>, rx: mpsc::UnboundedReceiver<Bytes>, is_client: bool) -> SctpSide {
     let chans = Arc::new(parking_lot::Mutex::new(Vec::new()));
     let (tx, new_dc_rx) = mpsc::unbounded_channel();
-    let cfg = RtcConfiguration::default();
+    let mut cfg = RtcConfiguration::default();
+    // short retransmission timers: the genuine peer's FORWARD-TSN (abandoned PR-SCTP message) is captured in real time
+    cfg.sctp_rto_initial = std::time::Duration::from_millis(40);
+    cfg.sctp_rto_min = std::time::Duration::from_millis(40);
     let (sctp, runner) = SctpTransport::new(dtls, rx, chans.clone(), 5000, 5000, Some(tx), is_client, &cfg);
     SctpSide { sctp, task: Task::new(if is_client { "sctp-client" } else { "sctp-server" }, runner), chans, new_dc_rx, dcs: Vec::new() }
 }
@@ -248,6 +251,46 @@ impl Ep {
         }
         if self.a.dcs.is_empty() {
             return Err("A never announced the in-band data channel".into());
+        }
+        Ok(())
+    }
+
+    /// The genuine peer's FORWARD-TSN and RE-CONFIG: B sends on a partially reliable channel (no retransmission), the
+    /// packet is lost, B's T3 timer abandons the message and announces it; then B closes a channel (outgoing SSN reset).
+    async fn capture_pr_sctp(&mut self) -> Result<(), String> {
+        let dc = Arc::new(DataChannel::new(3, DataChannelConfig { label: "pr".into(), ordered: true, max_retransmits: Some(0), negotiated: Some(3), ..Default::default() }));
+        self.b.chans.lock().push(Arc::downgrade(&dc));
+        self.b.dcs.push(dc);
+        // an ordered message first so that the stream exists on A, then the one that gets lost
+        self.b.sctp.send_data(3, b"pr first").await.map_err(|e| e.to_string())?;
+        for _ in 0..4 {
+            self.step().await;
+        }
+        self.b.sctp.send_data(3, b"pr lost").await.map_err(|e| e.to_string())?;
+        self.collect().await;
+        self.held.retain(|p| classify(p) != "sctp.data");
+        let t0 = std::time::Instant::now();
+        while !self.seen.contains_key("sctp.forward_tsn") && t0.elapsed() < std::time::Duration::from_secs(3) {
+            tokio::time::sleep(std::time::Duration::from_millis(15)).await;
+            self.collect().await;
+            self.held.retain(|p| classify(p) != "sctp.data");
+        }
+        if !self.seen.contains_key("sctp.forward_tsn") {
+            return Err(format!("the genuine peer sent no FORWARD-TSN: {}", self.b.sctp.diagnostic_info()));
+        }
+        for _ in 0..3 {
+            self.step().await;
+        }
+        self.b.sctp.close_data_channel(1).await.map_err(|e| e.to_string())?;
+        for _ in 0..4 {
+            self.collect().await;
+            if self.seen.contains_key("sctp.reconfig") {
+                break;
+            }
+            tokio::time::sleep(std::time::Duration::from_millis(10)).await;
+        }
+        if !self.seen.contains_key("sctp.reconfig") {
+            return Err("the genuine peer sent no RE-CONFIG".into());
         }
         Ok(())
     }
@@ -431,6 +474,9 @@ async fn reference() -> Result<HashMap<&'static str, Vec<u8>>, String> {
     for a_is_client in [false, true] {
         let mut ep = Ep::raw(a_is_client).await?;
         ep.establish().await?;
+        if !a_is_client {
+            ep.capture_pr_sctp().await?;
+        }
         for (k, v) in ep.seen.drain() {
             m.entry(k).or_insert(v);
         }
